@@ -123,6 +123,12 @@ func EvalExpr(e gen.Expr, env Env) (any, error) {
 				if li < 0 {
 					return nil, domain("shift of a negative value")
 				}
+				if ri >= 64 {
+					// every bit is shifted out: 0 under the int64 and the
+					// 64-bit unsigned reading alike
+					out = 0
+					break
+				}
 				if ri < 0 || ri > 62 {
 					return nil, domain("shift count %d outside 0..62", ri)
 				}
